@@ -3,6 +3,7 @@ Lemmas.Codec — helper laws for the typed header codec (Sip.Codec): parameters,
 user-info, white-space fields, comma lists. Property C14 (Props/C14.lean) is assembled from these.
 Core Lean only.
 -/
+import Lemmas.Literal
 import Sip.Codec
 import Lemmas.Bytes
 import Lemmas.Num
@@ -829,7 +830,7 @@ theorem parseFromTo_nameaddr_text (na : NameAddr) (ps : List KeyValue)
     (hna : parseNameAddr na.encode = some na) (hd1 : (60 : UInt8) ∉ na.display)
     (hd2 : (62 : UInt8) ∉ na.display) (hi : (62 : UInt8) ∉ na.addr.encode)
     (hps : ∀ x ∈ ps, (61 : UInt8) ∉ x.key ∧ x.key ≠ [] ∧ (59 : UInt8) ∉ x.encode) :
-    parseFromTo (na.encode ++ encodeSemiParams ps)
+    parseFromToCore (na.encode ++ encodeSemiParams ps)
       = some { nameAddr := some na, addrSpec := none, params := ps } := by
   have e : na.encode ++ encodeSemiParams ps
       = na.display ++ 60 :: (na.addr.encode ++ [62] ++ encodeSemiParams ps) := by
@@ -837,7 +838,7 @@ theorem parseFromTo_nameaddr_text (na : NameAddr) (ps : List KeyValue)
   have c1 : cut 60 (na.encode ++ encodeSemiParams ps)
       = some (na.display, na.addr.encode ++ [62] ++ encodeSemiParams ps) := by
     rw [e]; exact cut_append_of_not_mem 60 _ _ hd1
-  unfold parseFromTo
+  unfold parseFromToCore
   rw [c1]
   simp only
   rw [cut_gt_nameaddr na _ hd2 hi]
@@ -856,12 +857,12 @@ theorem parseFromTo_addrspec_text (a : AddrSpec) (ps : List KeyValue)
     (h59 : (59 : UInt8) ∉ a.encode)
     (hps : ∀ x ∈ ps, (61 : UInt8) ∉ x.key ∧ x.key ≠ [] ∧ (59 : UInt8) ∉ x.encode)
     (hlt : ∀ x ∈ ps, (60 : UInt8) ∉ x.key ∧ (60 : UInt8) ∉ x.value) :
-    parseFromTo (a.encode ++ encodeSemiParams ps)
+    parseFromToCore (a.encode ++ encodeSemiParams ps)
       = some { nameAddr := none, addrSpec := some a, params := ps } := by
   have hno : (60 : UInt8) ∉ a.encode ++ encodeSemiParams ps := by
     simp only [List.mem_append, not_or]
     exact ⟨h60, not_mem_encodeSemiParams (by decide) (by decide) hlt⟩
-  unfold parseFromTo
+  unfold parseFromToCore
   rw [cut_of_not_mem 60 _ hno]
   simp only
   cases ps with
